@@ -362,6 +362,11 @@ def oracle(rng, thorough, deep=False, hints=None):
                               quat=q, model=["ZNCC", "NCC", "PCC", "FSC"][it % 4],
                               d=[int(x) for x in rng.integers(-2, 3, size=3)],
                               history=2 if (kind == "pearson" and it % 2) else 0))
+    # cutoffs between 0.5 (Nyquist along an axis) and 0.866 (box diagonal) still filter; no wedge, every model
+    for it, co in enumerate([0.5, 0.6, 0.8, 0.55][: 4 if big else 2]):
+        for kind in ("pearson", "agree"):
+            cases.append(dict(kind=kind, shape=[8, 9, 8], seed=int(rng.integers(0, 10 ** 6)), mask=[None, "soft"][it % 2], cutoff=co,
+                              tilt=None, quat=[0, 0, 0, 1.0], model=["ZNCC", "NCC"][it % 2], d=[0, 0, 0], history=0))
     # always: a wedge model used for other orientations before the score that is checked
     cases.append(dict(kind="pearson", shape=[8, 9, 8], seed=int(rng.integers(0, 10 ** 6)), mask=None, cutoff=None,
                       tilt=[-60, 60], quat=Rotation.random(random_state=int(rng.integers(0, 10 ** 6))).as_quat().tolist(),
